@@ -183,3 +183,10 @@ Theorem C12_rsi_vidya_nan_refuted :
               [flatc 3.3 1; flatc 2.5 1; flatc 0.1 1; flatc 0.1 1; flatc 0.1 1; flatc 0.1 1; flatc 0.1 1; flatc 0.1 1; flatc 0.1 1] = [v] /\
             PrimFloat.is_nan v = true.
 Proof. eexists. split; vm_compute; reflexivity. Qed.
+(** KF-C12-tsx-residue: TrendStrengthIndex(period 2) built on a flat candle at 1e8 and fed 100, 0.7: the window {100, 0.7} has
+    correlation exactly -1 with time, but the running sum of squares still carries the rounding residue of 1e8^2 and the value
+    falls below -1 *)
+Theorem C12_tsx_residue_refuted :
+  exists v, last_vals (tsx_init (pw := PW8) 2 0.75%float 1 SClose (flatc 100000000 1)) (tsx_next (pw := PW8))
+              [flatc 100 1; flatc 0.7 1] = [v] /\ PrimFloat.ltb v (-1)%float = true.
+Proof. eexists. split; vm_compute; reflexivity. Qed.
